@@ -423,6 +423,8 @@ def stmt_programs(rng: random.Random, n: int):
     for k, text in enumerate(bare_arm_texts()):
         if "bump(" not in text:
             items.append(dict(name=f"bare;{k}", text=text, exports=[("a", "int32_t")], vkey="bare"))
+    for nm, text in opname_local_texts():
+        items.append(dict(name=f"opname;{nm}", text=text, exports=[(nm, "int32_t")], vkey="opname"))
     g = G(rng, avoid=("stmtexpr", "const_cond", "suffix"))
     for i in range(n):
         text, ex = g.program(depth=rng.choice([2, 3, 4]), nstmts=(2, 6), types=["int32_t", "uint32_t", "int64_t", "uint64_t", "int32_t", "uint8_t", "int16_t"])
@@ -434,6 +436,16 @@ def stmt_programs(rng: random.Random, n: int):
 def bump_sub(name="bump"):
     """by-reference register operand: counts how often the call is executed"""
     return sub_item(name, "int32_t", ["HexInsnPktBundle *bundle", "const HexOp *RxV", "int32_t v"], "{ RxV = RxV + 1; return v + 1; }")
+
+
+def opname_local_texts():
+    """locals whose names are the compiler's base names of operations"""
+    out = []
+    for nm in ("branch", "seq", "seq_then", "seq_else", "op_ADD", "op_ASSIGN", "op_LT", "op_AND", "cast_st64", "cast_ut32", "empty", "nop", "jump", "cond", "ite_cast_st32",
+               "ml", "ms", "gcc_expr", "op_INC", "const_pos_5", "set_return_val", "instruction_sequence"):
+        out.append((nm, f"{{ int32_t {nm} = RsV; if ({nm} < RtV) {{ ReV = ({nm} + 5) & RtV; }} else {{ {nm} = {nm} + 1; ReV = 2; }} RddV = (int64_t) {nm}; "
+                        f"mem_store_u32(RtV, (RsV > 0) ? {nm} : 7); {nm}++; RxV = {nm}; }}"))
+    return out
 
 
 def bare_arm_texts():
@@ -480,6 +492,15 @@ def hybrid_programs(rng: random.Random, n: int):
     T("arg;loop2", "{ int32_t a = RsV; for (i = 0; i < 3; i++) { a = conv_round(clz32(a + i), 0) + a; } ReV = a; }", a32, vk="arg")
     T("arg;bump", "{ int32_t a = RsV & 7; a = a + 1; ReV = clo32(~bump(bundle, RxV, a)); RddV = RxV; }", a32, [bs], bc, "arg")
     T("arg;se", "{ int32_t a = RsV; a += 2; ReV = clz32((uint16_t) ({ a = a * 3; a; })); RddV = a; }", a32, vk="arg")
+    # value-producing operations in a loop CONDITION (listed finding loop_condition_hybrid_once) and, as controls, in init / step / body
+    T("loopcond;call", "{ int32_t a = RsV | 1; int32_t n = 0; for (i = 0; i < clz32(a); i++) { a = a << 1; n++; } ReV = n; }", a32, vk="loopcond")
+    T("loopcond;post", "{ int32_t a = RsV & 7; int32_t n = 0; for (i = 0; i < a--; i++) { n += 3; } ReV = n; RddV = a; }", a32, vk="loopcond")
+    T("loopcond;se", "{ int32_t a = RsV; for (i = 0; i < ({ a = a + 1; 3; }); i++) { ReV = a; } RddV = a; }", a32, vk="loopcond")
+    T("loopcond;ctl", "{ int32_t a = RsV | 1; int32_t n = clz32(a); for (i = 0; i < n; i = i + clz32(a) - 30) { a = (a << 1) | 1; } ReV = i; RddV = a; }", a32, vk="loopcond")
+    # a statement-expression whose value is a comparison, used as condition / operand of a logical operator
+    T("se;boolif", "{ int32_t a = 0; if (({ a = RsV; a > 0; })) { ReV = a; } RddV = a; }", a32, vk="se;bool")
+    T("se;boolcond", "{ int32_t a = 0; ReV = ({ a = RsV; a > RtV; }) ? 3 : 4; RddV = a; }", a32, vk="se;bool")
+    T("se;boolop", "{ int32_t a = 0; ReV = ({ a = RsV; a > 0; }) && RtV; RddV = !({ a = a + 1; a == 5; }) + a; }", a32, vk="se;bool")
     # calls: return value, unused value, nested, in conditions / arguments / arms
     T("call;value", "{ ReV = clz32(RsV) + 1; }")
     T("call;unused", "{ ReV = RsV; clz32(RsV); RddV = ReV; }")
